@@ -522,6 +522,18 @@ func (db *DB) Open() error {
 		return fmt.Errorf("max ltx file: %w", err)
 	}
 
+	// A snapshot supersedes every other transaction file. If the process died
+	// after a snapshot was renamed into place but before the files it replaces
+	// were removed, finish the removal so the log is a single chain again.
+	if ltxFilename != "" {
+		if minTXID, _, err := ltx.ParseFilename(filepath.Base(ltxFilename)); err == nil && minTXID == 1 {
+			dir, file := filepath.Split(ltxFilename)
+			if err := removeFilesExcept(db.os, dir, file); err != nil {
+				return fmt.Errorf("remove ltx except snapshot: %w", err)
+			}
+		}
+	}
+
 	// Sync up WAL and last LTX file, if they both exist.
 	if ltxFilename != "" {
 		if err := db.syncWALToLTX(context.Background(), ltxFilename); err != nil {
